@@ -250,7 +250,10 @@ def legacy_flag(fx, op, old, exc, got, argform="list"):
 def run_case(fx, case, argform="list"):
     """single operation on a fresh in-memory collection (no database): contents / return / exception = spec, positions = indices"""
     op, exp = case["op"], case["exp"]
-    fx.fresh(case["val"], use_db=False)
+    try:
+        fx.fresh(case["val"], use_db=False)
+    except Exception as e:              # the initial value is built through the API under test
+        return "setup", "building %r through the collection raised %r" % (case["val"], e)
     old = observe(fx)
     exc, rk, ret = perform_on(fx, op, argform)
     got = observe(fx)
